@@ -372,11 +372,35 @@ func feedScripted(i int, m CMsg, conn *websocket.Conn, tr *xport.ScriptConn, con
 	data := m.Data.Bytes()
 	payload := data
 	if m.Compressed {
-		payload = wsref.DeflateMessage(data, []wsref.Seg{{Kind: "flate", Len: len(data), Level: 6}}, false, 0)
+		// odd messages: the peer's deflater ends the message with a final block
+		// (RFC 7692 section 7.2.3.4), which gorilla's own writer never does
+		payload = wsref.DeflateMessage(data, []wsref.Seg{{Kind: "flate", Len: len(data), Level: 6}}, i%2 == 1, 6)
 	}
 	f := wsref.Frame{Fin: true, Rsv1: m.Compressed, Opcode: byte(m.MT), Masked: connIsServer, Key: [4]byte{1, 2, 3, byte(i)}, Payload: payload}
 	tr.AppendInput(wsref.AppendFrame(nil, f))
-	mt, got, rerr := conn.ReadMessage()
+	var mt int
+	var got []byte
+	var rerr error
+	switch how := (i / 2) % 3; {
+	case how == 1 && len(data) > 0 && (negotiated || !m.Compressed):
+		// the application reads the connection as one stream
+		got = make([]byte, len(data))
+		_, rerr = io.ReadFull(websocket.JoinMessages(conn, ""), got)
+		mt = m.MT
+		if rerr != nil {
+			rerr = fmt.Errorf("read through JoinMessages: %w", rerr)
+		}
+	case how == 2 && (negotiated || !m.Compressed):
+		// a read limit of exactly the message's size on the wire
+		conn.SetReadLimit(int64(len(payload)))
+		mt, got, rerr = conn.ReadMessage()
+		conn.SetReadLimit(0)
+		if rerr != nil {
+			rerr = fmt.Errorf("read under SetReadLimit(%d), the size of its payload on the wire: %w", len(payload), rerr)
+		}
+	default:
+		mt, got, rerr = conn.ReadMessage()
+	}
 	if m.Compressed && !negotiated {
 		if rerr == nil {
 			return false, fmt.Errorf("scripted message %d: an RSV1 frame was accepted although compression was not agreed (delivered %d bytes)", i, len(got))
